@@ -384,6 +384,12 @@ class SimplePathStrategy(object):
                     fid += 1
                     p = 0
                     ic = True
+                    if not frags[fid][3]:
+                        # next fragment starts with descendant::, so it can
+                        # only match below this node
+                        if kind is START:
+                            stack_push((fid, p, ic))
+                        return None
 
             if fid is None:
                 # there was no match in fragment not ignoring context
